@@ -32,6 +32,7 @@ import (
 	"google.golang.org/grpc/balancer/base"
 	"google.golang.org/grpc/codes"
 	"google.golang.org/grpc/connectivity"
+	"google.golang.org/grpc/metadata"
 	"google.golang.org/grpc/resolver"
 	"google.golang.org/grpc/status"
 
@@ -150,6 +151,92 @@ var (
 	c14OK    = c14Errs[0]
 )
 
+// c14DoneInfo varies the DoneInfo fields the score must NOT depend on: the
+// statement makes the score a function of the error (acceptable or not) only.
+type c14LoadReport struct{ CPU float64 }
+
+func c14DoneInfo(err error, n int64) balancer.DoneInfo {
+	di := balancer.DoneInfo{Err: err, BytesSent: n&1 != 0, BytesReceived: n&2 != 0}
+	if n&4 != 0 {
+		di.Trailer = metadata.Pairs("x-verif", "c14", "grpc-status-details-bin", "AA")
+	}
+	if n&8 != 0 {
+		di.ServerLoad = &c14LoadReport{CPU: float64(n%100) / 100}
+	}
+	return di
+}
+
+// c14Guard runs Pick / Done calls on a helper goroutine so that a call that
+// never returns (picker lock never released) does not park the monitor itself.
+type c14Guard struct {
+	jobs chan func()
+	done chan struct{}
+	tm   *time.Timer
+}
+
+func c14NewGuard() *c14Guard {
+	g := &c14Guard{jobs: make(chan func()), done: make(chan struct{}), tm: time.NewTimer(time.Hour)}
+	g.tm.Stop()
+	go func() {
+		for f := range g.jobs {
+			f()
+			g.done <- struct{}{}
+		}
+	}()
+	return g
+}
+
+const c14HangWatchdog = 30 * time.Second
+
+const c14RaceWatchdog = 120 * time.Second
+
+// run returns false if f did not return within the watchdog (f keeps running).
+func (g *c14Guard) run(f func()) bool {
+	g.jobs <- f
+	g.tm.Reset(c14HangWatchdog)
+	select {
+	case <-g.done:
+		if !g.tm.Stop() {
+			<-g.tm.C
+		}
+		return true
+	case <-g.tm.C:
+		return false
+	}
+}
+
+func (g *c14Guard) close() { close(g.jobs) }
+
+// c14ClassifyStall decides what a stalled Pick/Done is. Pick and Done do no I/O
+// and take microseconds; if, after the watchdog, goroutines are parked on the
+// picker's mutex inside p2cPicker methods while no goroutine is running inside
+// the picker (nobody can ever release it), the lock was leaked: the property's
+// entry point never returns. Anything else is a slow machine: inconclusive.
+var c14Stalled int32 // set when a Pick/Done stalled in the running test: no further scenarios
+
+func c14ClassifyStall(m *vk.M, desc, what string) {
+	atomic.StoreInt32(&c14Stalled, 1)
+	time.Sleep(200 * time.Millisecond)
+	blocks := vk.GoroutinesIn("p2c.(*p2cPicker).")
+	var waiting, inside []string
+	for _, b := range blocks {
+		if strings.Contains(b, "sync.(*Mutex).Lock") {
+			waiting = append(waiting, b)
+		} else {
+			inside = append(inside, b)
+		}
+	}
+	if len(waiting) > 0 && len(inside) == 0 {
+		dump := strings.Join(waiting, "\n\n")
+		if len(dump) > 3000 {
+			dump = dump[:3000]
+		}
+		m.Violate("C14:pick:hang:picker-lock-never-released", desc, "%s did not return within %v: %d goroutine(s) parked on the picker mutex inside p2cPicker methods and no goroutine holds it any more:\n%s", what, c14HangWatchdog, len(waiting), dump)
+		return
+	}
+	m.Inconclusive("%s did not return within %v but the goroutine dump does not show a leaked picker lock (%d waiting, %d inside)", what, c14HangWatchdog, len(waiting), len(inside))
+}
+
 // ---------------------------------------------------------------------------
 // per-event oracle (sequential histories)
 
@@ -173,11 +260,13 @@ type c14Mon struct {
 	nPick, nAcc, nUnacc, nAdv, nChecks int64
 	nRose, nFell                       int64
 	bad                                bool
+	hung                               bool // a Pick/Done never returned: stop the whole test
+	guard                              *c14Guard
 }
 
 func c14NewMon(m *vk.M, p *p2cPicker, idx map[balancer.SubConn]int, desc func() string) *c14Mon {
 	n := len(p.conns)
-	mon := &c14Mon{m: m, p: p, idx: idx, n: n, desc: desc,
+	mon := &c14Mon{m: m, p: p, idx: idx, n: n, desc: desc, guard: c14NewGuard(),
 		picks: make([]int64, n), comps: make([]int64, n), minLat: make([]int64, n), maxLat: make([]int64, n)}
 	for i := range mon.minLat {
 		mon.minLat[i] = -1
@@ -209,7 +298,13 @@ func (mon *c14Mon) checkAll(ev string) {
 // pick performs one Pick and checks it. ok=false: scenario must stop.
 func (mon *c14Mon) pick() (c14Pending, bool) {
 	now := int64(timex.Now())
-	res, err := mon.p.Pick(c14PickInfo)
+	var res balancer.PickResult
+	var err error
+	if !mon.guard.run(func() { res, err = mon.p.Pick(c14PickInfo) }) {
+		mon.bad, mon.hung = true, true
+		c14ClassifyStall(mon.m, mon.desc(), fmt.Sprintf("Pick #%d", mon.nPick+1))
+		return c14Pending{}, false
+	}
 	mon.nPick++
 	if err != nil {
 		mon.violate("C14:pick:error-with-ready-conns", "Pick returned error %v with %d ready connections", err, mon.n)
@@ -235,7 +330,12 @@ func (mon *c14Mon) complete(pd c14Pending, k c14ErrKind) bool {
 	before := c14Read(c)
 	now := int64(timex.Now())
 	lat := now - pd.start
-	pd.done(balancer.DoneInfo{Err: k.err})
+	di := c14DoneInfo(k.err, (mon.nAcc+mon.nUnacc)*7+int64(pd.conn))
+	if !mon.guard.run(func() { pd.done(di) }) {
+		mon.bad, mon.hung = true, true
+		c14ClassifyStall(mon.m, mon.desc(), fmt.Sprintf("Done(%s) on backend %d", k.name, pd.conn))
+		return false
+	}
 	mon.comps[pd.conn]++
 	if mon.minLat[pd.conn] < 0 || lat < mon.minLat[pd.conn] {
 		mon.minLat[pd.conn] = lat
@@ -278,6 +378,9 @@ func (mon *c14Mon) complete(pd c14Pending, k c14ErrKind) bool {
 }
 
 func (mon *c14Mon) flush(prefix string) {
+	if !mon.hung {
+		mon.guard.close()
+	}
 	mon.m.Count(prefix+"picks", mon.nPick)
 	mon.m.Count(prefix+"done_acceptable", mon.nAcc)
 	mon.m.Count(prefix+"done_unacceptable", mon.nUnacc)
@@ -418,6 +521,7 @@ func c14RunTrace(m *vk.M, idx int, cfg c14TraceCfg) (nontrivial bool, digest str
 
 func TestVerifC14Trace(t *testing.T) {
 	logx.Disable()
+	atomic.StoreInt32(&c14Stalled, 0)
 	m := vk.New(t, "C14", "seeded random sequential histories of Pick / Done(err kind) / clock advance over N in {1,2,3,4,5,8,16,50} fake ready SubConns on the virtual clock; after every event: picked in ready set, inflight==picks-completions and 0<=success<=1000 for every backend; after every Done: success moved in the right direction (1 unit truncation slack), lag within [min,max] observed latency of that backend; non-trivial = both acceptable and unacceptable completions and at least one score drop")
 	defer m.Done()
 	defer timex.VerifRealClock()
@@ -454,7 +558,7 @@ func TestVerifC14Trace(t *testing.T) {
 		}
 		m.Current(fmt.Sprintf("case=%d;%s", idx, vk.JSON(cfg)))
 		nontrivial, digest, ok := c14RunTrace(m, idx, cfg)
-		if !ok {
+		if !ok || atomic.LoadInt32(&c14Stalled) != 0 {
 			return
 		}
 		m.Case(digest+fmt.Sprint(idx), nontrivial)
@@ -829,9 +933,172 @@ func c14RunHiRate(m *vk.M, idx int, cfg c14DerivedCfg) (ok bool) {
 	return true
 }
 
+// overlap: backend 0 is the high-load backend and its calls overlap: after a
+// warm-up they take 4 s / 10 s of virtual time, or never complete while the
+// traffic lasts ("hung"), so it has calls in flight whenever it is a candidate.
+// Sustained traffic continues on the others (2000 picks per virtual second):
+// every backend must still be picked within every 3 virtual seconds.
+func c14RunOverlap(m *vk.M, idx int, cfg c14DerivedCfg) (ok bool) {
+	desc := func() string { return fmt.Sprintf("case=%d;%s", idx, vk.JSON(cfg)) }
+	timex.VerifFakeClock(c14Start)
+	p, cidx, err := c14NewPicker(cfg.N, cfg.Seed)
+	if err != nil {
+		m.Inconclusive("case %d: %v", idx, err)
+		return false
+	}
+	mon := c14NewMon(m, p, cidx, desc)
+	defer mon.flush("overlap_")
+	var slowLat time.Duration = -1 // hung
+	switch cfg.Variant {
+	case "4s":
+		slowLat = 4 * time.Second
+	case "10s":
+		slowLat = 10 * time.Second
+	}
+	lastPick := make([]int64, cfg.N)
+	for i := range lastPick {
+		lastPick[i] = int64(c14Start)
+	}
+	var maxGap int64
+	var out []c14Pending // outstanding calls on backend 0, oldest first
+	maxOut := 0
+	warmEnd := int64(c14Start) + int64(2*time.Second)
+	end := warmEnd + int64(30*time.Second)
+	for int64(timex.Now()) < end {
+		now := int64(timex.Now())
+		for len(out) > 0 && slowLat >= 0 && now-out[0].start >= int64(slowLat) {
+			pd := out[0]
+			out = out[1:]
+			if !mon.complete(pd, c14OK) {
+				return true
+			}
+		}
+		pd, ok := mon.pick()
+		if !ok {
+			return true
+		}
+		lastPick[pd.conn] = now
+		for j, lp := range lastPick {
+			g := now - lp
+			if g > maxGap {
+				maxGap = g
+			}
+			if g > int64(c14StarveWindow) {
+				s := c14Read(p.conns[j])
+				mon.violate("C14:starvation:not-picked-within-window:calls-in-flight", "backend %d was not picked for %.3fs of virtual time under sustained traffic (window %.1fs, %d picks total); it has %d call(s) in flight (latency %s), lag=%d success=%d",
+					j, float64(g)/1e9, float64(c14StarveWindow)/1e9, mon.nPick, s.inflight, cfg.Variant, s.lag, s.success)
+				return true
+			}
+		}
+		switch {
+		case pd.conn != 0:
+			timex.VerifAdvance(200 * time.Microsecond)
+			if !mon.complete(pd, c14OK) {
+				return true
+			}
+		case now < warmEnd: // warm-up: backend 0 is merely slow (5 ms)
+			timex.VerifAdvance(5 * time.Millisecond)
+			if !mon.complete(pd, c14OK) {
+				return true
+			}
+		default:
+			out = append(out, pd)
+			if len(out) > maxOut {
+				maxOut = len(out)
+			}
+		}
+		timex.VerifAdvance(300 * time.Microsecond)
+	}
+	for _, pd := range out {
+		if !mon.complete(pd, c14OK) {
+			return true
+		}
+	}
+	m.Count("overlap_scenarios", 1)
+	m.Max("overlap_max_gap_ms", maxGap/1e6)
+	m.Max("overlap_max_outstanding_on_slow_backend", int64(maxOut))
+	if m.WantSample() && cfg.N == 3 {
+		m.Sample(map[string]any{"scenario": cfg, "picks_per_backend": mon.picks, "max_outstanding_on_backend_0": maxOut, "max_gap_ms": maxGap / 1e6})
+	}
+	return true
+}
+
+// idle: a client that goes idle with calls outstanding: the last pick is followed
+// by more than logInterval of silence, then the outstanding calls complete (the
+// completion that finds the statistics line overdue takes the picker lock), then
+// traffic resumes. Every Pick must still return.
+func c14RunIdle(m *vk.M, idx int, cfg c14DerivedCfg) (ok bool) {
+	desc := func() string { return fmt.Sprintf("case=%d;%s", idx, vk.JSON(cfg)) }
+	timex.VerifFakeClock(c14Start)
+	p, cidx, err := c14NewPicker(cfg.N, cfg.Seed)
+	if err != nil {
+		m.Inconclusive("case %d: %v", idx, err)
+		return false
+	}
+	mon := c14NewMon(m, p, cidx, desc)
+	defer mon.flush("idle_")
+	r := rand.New(rand.NewSource(cfg.Seed ^ 0x1d1e))
+	outstanding := map[string]int{"one-call": 1, "two-calls": 2, "many-calls": 5 + r.Intn(20)}[cfg.Variant]
+	for cycle := 0; cycle < 6; cycle++ {
+		var pend []c14Pending
+		// some ordinary traffic, then calls that stay outstanding
+		for k := 0; k < 20+outstanding; k++ {
+			pd, ok := mon.pick()
+			if !ok {
+				return true
+			}
+			timex.VerifAdvance(time.Duration(1+r.Intn(3000)) * time.Microsecond)
+			if k < 20 {
+				if !mon.complete(pd, c14OK) {
+					return true
+				}
+			} else {
+				pend = append(pend, pd)
+			}
+		}
+		// one completion right away (it may write the statistics line), the others
+		// only after the idle period
+		if len(pend) > 1 {
+			if !mon.complete(pend[0], c14OK) {
+				return true
+			}
+			pend = pend[1:]
+		}
+		idle := int64(logInterval) + int64(time.Second)*int64(1+r.Intn(3600))
+		if cycle%2 == 1 {
+			idle = int64(logInterval) + 1 // just over the interval
+		}
+		timex.VerifAdvance(time.Duration(idle))
+		mon.nAdv++
+		for _, pd := range pend {
+			k := c14OK
+			if r.Intn(3) == 0 {
+				k = c14Fail2
+			}
+			if !mon.complete(pd, k) {
+				return true
+			}
+			timex.VerifAdvance(time.Duration(r.Intn(5)) * time.Millisecond)
+		}
+		m.Count("idle_periods", 1)
+	}
+	for k := 0; k < 50; k++ { // traffic resumes
+		pd, ok := mon.pick()
+		if !ok {
+			return true
+		}
+		if !mon.complete(pd, c14OK) {
+			return true
+		}
+	}
+	m.Count("idle_scenarios", 1)
+	return true
+}
+
 func TestVerifC14Derived(t *testing.T) {
 	logx.Disable()
-	m := vk.New(t, "C14", fmt.Sprintf("sequential sustained traffic on the virtual clock. share: after a 2 s all-success warm-up backend 0 fails every call (Unavailable/DeadlineExceeded), others succeed; once its completions span 0.8*decayTime it must have success<=%d; then over %d picks (10ms apart, N>=4: equal latency or fast-failing) its count < %.1f x the smallest healthy count (N=3: fewer than each healthy one); for N<=8 no backend goes unpicked for %v. hirate: N in {1,2,3,5}, one call per 100us/1ms/5ms (or bursts of 4 calls per instant every 1ms), backend 0 fails every call after a warm-up: unhealthy after at most 1000 failed completions that are each later than its previous completion. starve: backend 0 25x slower, 2000 picks/virtual s, N in 2..8: every backend picked at least once in every %v of virtual time; after a 2 s all-success warm-up; fail-recover variant: unhealthy after 15 s of failures, success>%d again after 40 s of successes", throttleSuccess, c14SharePicks, c14ShareFactor, c14ShareWindow, c14StarveWindow, throttleSuccess))
+	atomic.StoreInt32(&c14Stalled, 0)
+	m := vk.New(t, "C14", fmt.Sprintf("sequential sustained traffic on the virtual clock. share: after a 2 s all-success warm-up backend 0 fails every call (Unavailable/DeadlineExceeded), others succeed; once its completions span 0.8*decayTime it must have success<=%d; then over %d picks (10ms apart, N>=4: equal latency or fast-failing) its count < %.1f x the smallest healthy count (N=3: fewer than each healthy one); for N<=8 no backend goes unpicked for %v. hirate: N in {1,2,3,5}, one call per 100us/1ms/5ms (or bursts of 4 calls per instant every 1ms), backend 0 fails every call after a warm-up: unhealthy after at most 1000 failed completions that are each later than its previous completion. idle: N in {1,2,3,5}, calls outstanding across an idle period > logInterval, then their completions, then picks again: every Pick/Done returns (a 30 s stall with goroutines parked on the picker mutex and nobody holding it is the violation). overlap: N in {2,3,5,8}, backend 0's calls take 4 s / 10 s / never complete, so they overlap while traffic continues at 2000 picks/s: still every backend picked within 3 virtual s. starve: backend 0 25x slower, 2000 picks/virtual s, N in 2..8: every backend picked at least once in every %v of virtual time; after a 2 s all-success warm-up; fail-recover variant: unhealthy after 15 s of failures, success>%d again after 40 s of successes", throttleSuccess, c14SharePicks, c14ShareFactor, c14ShareWindow, c14StarveWindow, throttleSuccess))
 	defer m.Done()
 	defer timex.VerifRealClock()
 	reps := vk.N(3, 40)
@@ -848,6 +1115,16 @@ func TestVerifC14Derived(t *testing.T) {
 		for _, n := range []int{1, 2, 3, 5} {
 			for _, v := range []string{"100us", "1ms", "5ms", "burst4x1ms"} {
 				cfgs = append(cfgs, c14DerivedCfg{Kind: "hirate", N: n, Variant: v})
+			}
+		}
+		for _, n := range []int{1, 2, 3, 5} {
+			for _, v := range []string{"one-call", "two-calls", "many-calls"} {
+				cfgs = append(cfgs, c14DerivedCfg{Kind: "idle", N: n, Variant: v})
+			}
+		}
+		for _, n := range []int{2, 3, 5, 8} {
+			for _, v := range []string{"4s", "10s", "hung"} {
+				cfgs = append(cfgs, c14DerivedCfg{Kind: "overlap", N: n, Variant: v})
 			}
 		}
 		for _, n := range []int{2, 3, 4, 5, 8} {
@@ -868,8 +1145,15 @@ func TestVerifC14Derived(t *testing.T) {
 			ok = c14RunShare(m, idx, cfg)
 		case "hirate":
 			ok = c14RunHiRate(m, idx, cfg)
+		case "overlap":
+			ok = c14RunOverlap(m, idx, cfg)
+		case "idle":
+			ok = c14RunIdle(m, idx, cfg)
 		default:
 			ok = c14RunStarve(m, idx, cfg)
+		}
+		if atomic.LoadInt32(&c14Stalled) != 0 {
+			return
 		}
 		if !ok {
 			return
@@ -910,6 +1194,7 @@ func (cc *c14CC) UpdateState(s balancer.State) {
 
 func TestVerifC14Registered(t *testing.T) {
 	logx.Disable()
+	atomic.StoreInt32(&c14Stalled, 0)
 	m := vk.New(t, "C14", "balancer.Get(\"p2c_ewma\") built over a fake ClientConn; a random subset of the SubConns is driven to Ready (others stay Connecting / go to TransientFailure and back); after every state change 300 picks through the picker published by the balancer: each returns a currently Ready SubConn (or an error when none is ready)")
 	defer m.Done()
 	defer timex.VerifRealClock()
@@ -1014,7 +1299,7 @@ func TestVerifC14Registered(t *testing.T) {
 					if r.Intn(5) == 0 {
 						k = c14Errs[1+r.Intn(len(c14Errs)-1)]
 					}
-					res.Done(balancer.DoneInfo{Err: k.err})
+					res.Done(c14DoneInfo(k.err, int64(hit[j])))
 				}
 				timex.VerifAdvance(time.Duration(r.Intn(20)) * time.Millisecond)
 			}
@@ -1032,6 +1317,7 @@ func TestVerifC14Registered(t *testing.T) {
 
 func TestVerifC14Race(t *testing.T) {
 	logx.Disable()
+	atomic.StoreInt32(&c14Stalled, 0)
 	m := vk.New(t, "C14", "16 goroutines pick and complete concurrently (own pending lists, random error kinds, shared virtual clock advanced atomically, occasional >1 min jumps to run logStats concurrently); race detector on; during the run: picked in ready set, inflight>=1 while the caller's own call is outstanding, 0<=success<=1000 after each own Done; at quiescence: inflight==picks-completions==0 and lag within the latency bounds bracketed by the callers' clock stamps")
 	defer m.Done()
 	defer timex.VerifRealClock()
@@ -1086,7 +1372,7 @@ func TestVerifC14Race(t *testing.T) {
 						return false
 					}
 					t2 := int64(timex.Now())
-					pd.done(balancer.DoneInfo{Err: k.err})
+					pd.done(c14DoneInfo(k.err, t2))
 					t3 := int64(timex.Now())
 					atomic.AddInt64(&comps[pd.conn], 1)
 					if s := atomic.LoadUint64(&c.success); s > initSuccess {
@@ -1148,8 +1434,8 @@ func TestVerifC14Race(t *testing.T) {
 				}
 			}(w)
 		}
-		if !vk.Within(240*time.Second, wg.Wait) {
-			m.Inconclusive("case %d: workers did not finish within 240 s", idx)
+		if !vk.Within(c14RaceWatchdog, wg.Wait) {
+			c14ClassifyStall(m, desc, fmt.Sprintf("case %d: %d concurrent callers (watchdog %v)", idx, workers, c14RaceWatchdog))
 			return
 		}
 		var totalPicks, totalComps int64
@@ -1199,6 +1485,7 @@ func TestVerifC14Race(t *testing.T) {
 
 func TestVerifC14RaceMultiPicker(t *testing.T) {
 	logx.Disable()
+	atomic.StoreInt32(&c14Stalled, 0)
 	m := vk.New(t, "C14", "several pickers (2..6) built by one p2cPickerBuilder over 3..8 fake ready SubConns each, used as built (PRNG untouched) by 16 concurrent callers under the race detector; every Pick is recovered: no panic, picked SubConn belongs to the ready set of THAT picker, Done callable; at quiescence inflight==0 everywhere")
 	defer m.Done()
 	defer timex.VerifRealClock()
@@ -1264,12 +1551,12 @@ func TestVerifC14RaceMultiPicker(t *testing.T) {
 					if r.Intn(5) == 0 {
 						derr = c14Fail1.err
 					}
-					res.Done(balancer.DoneInfo{Err: derr})
+					res.Done(c14DoneInfo(derr, int64(it)))
 				}
 			}(w)
 		}
-		if !vk.Within(240*time.Second, wg.Wait) {
-			m.Inconclusive("case %d: workers did not finish within 240 s", idx)
+		if !vk.Within(c14RaceWatchdog, wg.Wait) {
+			c14ClassifyStall(m, desc, fmt.Sprintf("case %d: %d concurrent callers (watchdog %v)", idx, workers, c14RaceWatchdog))
 			return
 		}
 		if atomic.LoadInt32(&stop) == 0 {
@@ -1305,6 +1592,7 @@ func TestVerifC14RaceMultiPicker(t *testing.T) {
 
 func TestVerifC14RaceBigSteps(t *testing.T) {
 	logx.Disable()
+	atomic.StoreInt32(&c14Stalled, 0)
 	m := vk.New(t, "C14", "16 concurrent callers on 1..3 connections, each call: Pick, advance the shared virtual clock by a random 1 ms..30 s, Done (random error kind); race detector on; after every own Done: 0<=success<=1000 and lag <= the largest latency bracket seen so far by anybody (+ the caller's own bracket); at quiescence inflight==0, success in range, lag within the bracket of observed latencies")
 	defer m.Done()
 	defer timex.VerifRealClock()
@@ -1366,7 +1654,7 @@ func TestVerifC14RaceBigSteps(t *testing.T) {
 					}
 					c := p.conns[i]
 					t2 := int64(timex.Now())
-					res.Done(balancer.DoneInfo{Err: k.err})
+					res.Done(c14DoneInfo(k.err, t2))
 					t3 := int64(timex.Now())
 					atomic.AddInt64(&nDone, 1)
 					s := c14Read(c)
@@ -1391,8 +1679,8 @@ func TestVerifC14RaceBigSteps(t *testing.T) {
 				}
 			}(w)
 		}
-		if !vk.Within(240*time.Second, wg.Wait) {
-			m.Inconclusive("case %d: workers did not finish within 240 s", idx)
+		if !vk.Within(c14RaceWatchdog, wg.Wait) {
+			c14ClassifyStall(m, desc, fmt.Sprintf("case %d: %d concurrent callers (watchdog %v)", idx, workers, c14RaceWatchdog))
 			return
 		}
 		if atomic.LoadInt32(&stop) == 0 {
@@ -1506,7 +1794,7 @@ func c14DriveSubConns(m *vk.M, desc string, pk balancer.Picker, ready []balancer
 			lat = 5 * time.Millisecond
 		}
 		timex.VerifAdvance(lat)
-		pd.done(balancer.DoneInfo{})
+		pd.done(c14DoneInfo(nil, comps[pd.conn]))
 		comps[pd.conn]++
 		return checkInflight("done")
 	}
@@ -1560,6 +1848,7 @@ func c14DriveSubConns(m *vk.M, desc string, pk balancer.Picker, ready []balancer
 
 func TestVerifC14SharedAddr(t *testing.T) {
 	logx.Disable()
+	atomic.StoreInt32(&c14Stalled, 0)
 	m := vk.New(t, "C14", "ready sets of 2..8 SubConns in which several share the host:port string but differ in ServerName / Attributes (boundary: entirely identical Address values), (a) given directly to p2cPickerBuilder.Build, (b) produced by the registered p2c_ewma balancer over a fake ClientConn with every SubConn Ready; 6 virtual seconds of sustained traffic (2000 picks/s, one SubConn optionally 25x slower): every pick is a ready SubConn, every ready SubConn is picked at least once in every 3 virtual seconds, inflight==picks-completions per SubConn")
 	defer m.Done()
 	defer timex.VerifRealClock()
